@@ -28,7 +28,11 @@ RULE = (
 ASSUMPTIONS = ["latency bound = SEND_COLLECTION_TIMEOUT plus 4 clock resolutions"]
 FLOORS = {"quick": {"scenarios": 5000, "entries_queued": 150000, "entries_matched": 150000, "datagrams": 40000,
                     "request_at_close_before": 3000, "request_at_close_after": 3000, "request_close_adjacent": 5000,
-                    "bursts_over_15": 2000, "zero_timeout_scenarios": 1000, "requests_during_stop": 500, "real_traffic_scenarios": 800}}
+                    "bursts_over_15": 2000, "zero_timeout_scenarios": 1000, "requests_during_stop": 500, "real_traffic_scenarios": 800,
+                    "mesh_scenarios": 100, "mesh_queue_entries_checked": 5000}}
+# system-level shards: the mesh workload of pv/mesh.py under this property's boundary monitors (reports of other monitors are dropped)
+MESH = {"want": ("queue",), "claim": ("mesh:queued-", "mesh:entry-on-the-wire"),
+        "quick": (2, 60), "thorough": (16, 1500)}
 
 DSTS = [None, ("10.0.10.2", 30490), ("10.0.10.2", 30491), ("2001:db8::a3", 30490, 0, 0)]  # two peers on one host
 
